@@ -45,7 +45,7 @@ var propMetas = []*propMeta{
 		NotDecided:  "quotient-estimate correction in uint128.div/uint192.div, product carries, that the digit loop yields enough digits — the arithmetic"},
 	{ID: "C03", Ready: true, Level: "other", DesignRef: "DESIGN.md §4 C03",
 		Technique:   "static analysis: class-domain dispatch interpretation of QuoRem (pairs of results), three-exponent scale pairing, guard dominance",
-		LevelText:   "The special table for both results, remainder sign provenance, coupled exponent adjustments (exp/qexp/rexp) in all loops, and the overflow guards of both results are decided on all paths.",
+		LevelText:   "The special table for both results, remainder sign provenance, coupled exponent adjustments (exp/qexp/rexp) in all loops, the overflow guards of both results, strictness of the coefficient comparison that guards the (0, x) exit, and that no quotient of a general division is discarded are decided on all paths.",
 		Explanation: "One obligation per construct; see rules_applied.",
 		NotDecided:  "exactness of the remainder and truncation of the quotient for large exponent gaps (value level)"},
 	{ID: "C04", Ready: true, Level: "other", DesignRef: "DESIGN.md §4 C04, §3 E5",
@@ -75,12 +75,12 @@ var propMetas = []*propMeta{
 		NotDecided:  "never farther than one quantum, idempotence, the quantised value itself"},
 	{ID: "C09", Ready: true, Level: "other", DesignRef: "DESIGN.md §4 C09",
 		Technique:   "static analysis: delegation equivalence, binary64 field-constant evaluation, dispatch interpretation of float classes, decimal/binary scale pairing, sticky accounting",
-		LevelText:   "NaN/Inf/zero mapping both ways, Float32/FromFloat32 delegation, IEEE binary64 field constants, scale pairing incl. mul1e38↔-38, shifted-out bits→sticky, rounding via reduce256 with the default mode behind the Inf guard, admissible Float64 early-outs, and read-only use of the big.Float argument are decided.",
+		LevelText:   "NaN/Inf/zero mapping both ways, Float32/FromFloat32 delegation, IEEE binary64 field constants, scale pairing incl. mul1e38↔-38, shifted-out bits→sticky, rounding via reduce256 with the default mode behind the Inf guard, admissible Float64 early-outs, an exact power-of-ten factor in Decimal.Float (fresh big.Float, SetInt only), in-range narrowing conversions, and read-only use of the big.Float argument are decided.",
 		Explanation: "One obligation per construct.",
 		NotDecided:  "faithfulness of Float64, exactness of FromFloat64, the round-trip identity (value level)"},
 	{ID: "C10", Ready: true, Level: "other", DesignRef: "DESIGN.md §4 C10",
 		Technique:   "static analysis: body-shape verification of FromInt64/FromUint64, saturation-bound constant evaluation in IntN/UintN, who-may-panic, truncating-consumer list, input immutability",
-		LevelText:   "Exact-by-construction small-integer constructors, saturated bounds and overflow comparison constants of IntN/UintN, panics only for NaN, blank remainders only in truncating consumers, FromInt copies before mutating and folds remainders into sticky, FromRat delegates to FromInt/Quo; also analysed under GOARCH=386 in the thorough tier.",
+		LevelText:   "Exact-by-construction small-integer constructors, saturated bounds and overflow comparison constants of IntN/UintN, panics only for NaN, blank remainders only in truncating consumers, FromInt copies before mutating and folds remainders into sticky, FromRat delegates to FromInt/Quo, the saturating exits are unreachable for a zero coefficient whatever its exponent (interval analysis with infeasible paths), narrowing conversions are in range, nil-able destinations are dereferenced only when non-nil; also analysed under GOARCH=386 in the thorough tier.",
 		Explanation: "One obligation per construct.",
 		NotDecided:  "the converted values themselves"},
 	{ID: "C11", Ready: true, Level: "other", DesignRef: "DESIGN.md §4 C11, App. F",
@@ -89,8 +89,8 @@ var propMetas = []*propMeta{
 		Explanation: "One obligation per construct.",
 		NotDecided:  "exactness, 0.1 <= |frac| < 1"},
 	{ID: "C12", Ready: true, Level: "proof", DesignRef: "DESIGN.md §4 C12, §3 E3",
-		Technique:   "static analysis: whole-body shape verification and byte-table extraction of MarshalBinary/UnmarshalBinary (inverse big-endian bijections), bit-field algebra of compose/decompose against the IEEE 754-2008 BID layout, decoding of every Decimal literal",
-		LevelText:   "Proof by exhaustive structural decision: the writer and reader bodies are verified to consist of nothing but a 16-entry byte table each; the tables are inverse big-endian bijections of hi‖lo, hence bit-for-bit round trip for all 2^128 patterns; the length guard precedes every read; compose/decompose fields equal the BID layout for both forms and the form switch is at 2^113; every Decimal literal decodes to the value its constructor claims.",
+		Technique:   "static analysis: partial evaluation of MarshalBinary/UnmarshalBinary over 128 symbolic input bits (concrete control, bit-provenance data; no concrete input exists), byte tables shown to be inverse big-endian bijections, bit-field algebra of compose/decompose against the IEEE 754-2008 BID layout, decoding of every Decimal literal",
+		LevelText:   "Proof by exhaustive structural decision: the writer and the reader are evaluated with every input bit symbolic (loops unrolled, helpers entered, anything not understood is undecided): each output bit is shown to be exactly one input bit, the two maps are inverse big-endian bijections of hi‖lo, hence bit-for-bit round trip for all 2^128 patterns; every length other than 16 (evaluated for the ranges [0,15] and [17,∞)) returns an error before any read or store; compose/decompose fields equal the BID layout for both forms and the form switch is at 2^113; every Decimal literal decodes to the value its constructor claims.",
 		Explanation: "Every obligation must be discharged; obligations = table entries, body shapes, guards, field facts, literals.",
 		NotDecided:  "nothing of the stated property beyond the trusted base (values produced by arithmetic are C01.. concerns)",
 		Trusted:     []string{"Go semantics of shifts, byte() truncation and array indexing", "the body-shape matcher of rules_layout.go", "go/types constant evaluation"}},
@@ -101,7 +101,7 @@ var propMetas = []*propMeta{
 		NotDecided:  "RFC 8259 validity of every emitted token, value equality; direct calls accept some non-JSON numerals (+1, 01, .5) that encoding/json never forwards"},
 	{ID: "C14", Ready: true, Level: "other", DesignRef: "DESIGN.md §4 C14",
 		Technique:   "static analysis: byte-table extraction of Decompose, exact-or-error remainder flow in Compose, call-graph unreachability of rounding, commit on success",
-		LevelText:   "Decompose writes the big-endian coefficient table and trims leading zeros, forms 1/2 for Inf/NaN; in Compose every division remainder is tested and the non-zero path returns an error, no rounding function is reachable, unknown forms are errors, the receiver is stored only on success, scaling is exponent-paired and range-guarded.",
+		LevelText:   "Decompose writes the big-endian coefficient table and trims leading zeros, forms 1/2 for Inf/NaN; in Compose every division remainder is tested and the non-zero path returns an error, no rounding function is reachable, unknown forms are errors, the receiver is stored only on success, scaling is exponent-paired and range-guarded, digit-stripping loops strip only digits that cannot be kept, the coefficient handed to compose is within range (interval analysis), and a length copy is not used after the slice is re-sliced.",
 		Explanation: "One obligation per construct.",
 		NotDecided:  "arithmetic of the staged reduction"},
 	{ID: "C15", Ready: true, Level: "other", DesignRef: "DESIGN.md §4 C15, §3 E9, App. A",
